@@ -61,6 +61,7 @@ type Explorer struct {
 	Stats    *Stats
 	Found    map[string]*Found // by scenario-family + sig
 	Replay   int               // every Replay-th execution is run twice (0: only defaults and violations)
+	obs      map[string]int
 	err      error
 }
 
@@ -149,7 +150,16 @@ func clipStack(s string) string {
 // Explore explores one scenario within its deviation bound.
 func (e *Explorer) Explore(sc *world.Scenario) {
 	e.Stats.Scenarios++
+	e.obs = map[string]int{}
 	complete := e.explore(sc, nil, 0)
+	if complete && sc.Final != nil {
+		for _, v := range sc.Final(e.obs) {
+			key := sc.Family + "|" + v.Sig
+			if _, ok := e.Found[key]; !ok {
+				e.Found[key] = &Found{Scenario: sc.Name, Family: sc.Family, Sig: v.Sig, Msg: v.Msg, Choices: nil, Devs: 0}
+			}
+		}
+	}
 	b := sc.Bound
 	if !complete {
 		e.Stats.Capped = append(e.Stats.Capped, sc.Name)
@@ -178,8 +188,17 @@ func (e *Explorer) explore(sc *world.Scenario, prefix []int, devs int) bool {
 	if r.w.HorizonHit {
 		st.HorizonHits++
 	}
+	if sc.Observe != nil {
+		e.obs[sc.Observe(r.w)]++
+	}
+	nondefault := false
+	for _, c := range r.choices {
+		if c != 0 {
+			nondefault = true
+		}
+	}
 	st.Outcomes[r.fp] = struct{}{}
-	if devs > 0 {
+	if nondefault {
 		st.Nontrivial[r.fp] = struct{}{}
 	}
 	needReplay := len(prefix) == 0 || len(r.viols) > 0 || (e.Replay > 0 && st.Execs%int64(e.Replay) == 0)
